@@ -85,7 +85,8 @@ class SweepStream(Stream):
 
 
 def neff(wl=1.0, R=None, w=None, pol=None, PS=0.0, **kw):
-    return 1.5 + 0.1 * wl
+    # depends on EVERY documented argument (wl, R, w, pol)
+    return 1.5 + 0.1 * wl + 0.03 * (R or 0.0) + 0.02 * (w or 0.0) + 0.01 * (pol or 0.0)
 
 
 def uw_index(wl=1.0, T=0.0, **kw):
@@ -115,7 +116,7 @@ BLOCKS = {
     "PerfectMirror": (lambda: lk.PerfectMirror(0.2), ["wl"]),
     "FPR_NxM": (lambda: lk.FPR_NxM(2, 3), ["wl"]),
     "Ring": (lambda: lk.Ring(10.0, 1.5, 0.9, 0.8), ["wl"]),
-    "TH_PhaseShifter": (lambda: lk.TH_PhaseShifter(3.0, neff, wl=1.0), ["wl", "PS"]),
+    "TH_PhaseShifter": (lambda: lk.TH_PhaseShifter(3.0, neff, wl=1.0), ["wl", "PS", "pol", "w", "R"]),
     "FPR": (lambda: lk.FPR(2, 3, 50.0, 2.0, 2.0), ["wl"]),
     "CWA": (lambda: lk.CWA(3, 10.0), ["wl"]),
     "FPRGaussian": (lambda: lk.FPRGaussian(2, 2, 30.0, 2.0, 2.0, 1.0, 1.0, 2.0), ["wl"]),
@@ -143,6 +144,13 @@ class BlockStream(Stream):
                     vals = [round(1.0 + rng.randint(0, 80) / 64.0, 6) for _ in range(n)]
                     out.append({"block": name, "param": p, "vals": vals,
                                 "in_solver": rng.random() < 0.4})
+                if p == "PS":
+                    # complex parameter values (a lossy phase section): scalars and arrays must be treated alike
+                    n = rng.randint(2, 4)
+                    for ins in (True, False):
+                        out.append({"block": name, "param": p, "vals": [],
+                                    "cvals": [[round(rng.randint(0, 64) / 64.0, 6), round(rng.randint(1, 32) / 64.0, 6)]
+                                              for _ in range(n)], "in_solver": ins})
                 if p == "wl":
                     # a fine sweep: consecutive values a few parts per million apart (and one exact repeat)
                     v0 = round(1.0 + rng.randint(0, 80) / 64.0, 6)
@@ -164,18 +172,19 @@ class BlockStream(Stream):
         def mat(mod, k):
             names = sorted(p.name for p in mod.pin_dic)
             return cmat(netlib.observe_expo(mod, names, k), cf)
+        vals = [complex(*v) for v in d["cvals"]] if d.get("cvals") else d["vals"]
         scal = []
-        for v in d["vals"]:
+        for v in vals:
             try:
                 mod = self._obj(d).solve(**{d["param"]: v})
                 scal.append("Obs " + mat(mod, 0))
             except Exception:
                 scal.append("Raised")
         try:
-            mod = self._obj(d).solve(**{d["param"]: np.array(d["vals"])})
-            if np.asarray(mod.S).shape[0] != len(d["vals"]):
+            mod = self._obj(d).solve(**{d["param"]: np.array(vals)})
+            if np.asarray(mod.S).shape[0] != len(vals):
                 raise ValueError("sweep length")
-            sw = "Obs " + clist(mat(mod, k) for k in range(len(d["vals"])))
+            sw = "Obs " + clist(mat(mod, k) for k in range(len(vals)))
         except Exception:
             sw = "Raised"
         return "{| bk_scalar := %s; bk_sweep := %s |}" % (clist(scal), sw)
